@@ -32,6 +32,9 @@ pub struct Fmt
     pub trailing_blank: u8,
     pub final_newline: bool,
     pub files: u8,
+    /// with `bundle`: some paths of a section are written flat (dir/file) next to the bundles, sometimes the same path in both spellings
+    #[serde(default)]
+    pub mix_flat: bool,
 }
 
 #[derive(Clone, Debug, Serialize, Deserialize, PartialEq)]
@@ -52,6 +55,8 @@ pub enum Case
 {
     Rendered { rules: Vec<PRule>, fmt: Fmt, corruption: Corruption },
     Soup { files: Vec<String> },
+    /// a saved libFuzzer input (hex): split at 0xff into files, lossy UTF-8
+    FuzzBytes { hex: String },
 }
 
 fn perm<T: Clone>(v: &[T], seed: u64) -> Vec<T>
@@ -101,8 +106,18 @@ fn render_section(paths: &[Vec<String>], f: &Fmt, salt: u64) -> Vec<String>
     if f.bundle
     {
         let mut root = Tree::default();
-        for p in paths
+        let mut flat_lines: Vec<String> = vec![];
+        for (k, p) in paths.iter().enumerate()
         {
+            if f.mix_flat && p.len() >= 2 && (seed.wrapping_add(k as u64 * 31) % 3 != 0 || f.repeat_entry)
+            {
+                // this path is (also) written flat
+                flat_lines.push(p.join("/"));
+                if !(f.repeat_entry && k % 2 == 0)
+                {
+                    continue;
+                }
+            }
             let mut cur = &mut root;
             for c in p
             {
@@ -110,6 +125,8 @@ fn render_section(paths: &[Vec<String>], f: &Fmt, salt: u64) -> Vec<String>
             }
         }
         render_tree(&root, 0, seed, f.repeat_dir, &mut lines);
+        // flat lines go before or after the bundles
+        if seed % 2 == 0 { lines.extend(flat_lines); } else { flat_lines.extend(lines); lines = flat_lines; }
     }
     else
     {
@@ -223,137 +240,11 @@ fn corrupt(text: &str, c: &Corruption) -> String
     lines.join("\n")
 }
 
-fn map_bundle_err(e: &bundle::ParseError) -> BundleErr
-{
-    match e
-    {
-        bundle::ParseError::Empty => BundleErr::Empty,
-        bundle::ParseError::ContainsEmptyLines(v) => BundleErr::EmptyLines(v.clone()),
-        bundle::ParseError::Contradiction(a, b) => BundleErr::Contradiction(*a, *b),
-        bundle::ParseError::WrongIndent(i) => BundleErr::WrongIndent(*i),
-    }
-}
+use crate::verif::oracle::parse_check::{check_texts, compare_rules, file_name};
 
-fn map_err(e: &ParseError) -> (String, RefErr)
+pub fn fuzz_parts(data: &[u8]) -> Vec<String>
 {
-    match e
-    {
-        ParseError::UnexpectedEmptyLine(f, n) => (f.clone(), RefErr::EmptyLine(*n)),
-        ParseError::UnexpectedExtraColon(f, n) => (f.clone(), RefErr::ExtraColon(*n)),
-        ParseError::UnexpectedEndOfFileMidTargets(f, n) => (f.clone(), RefErr::EofTargets(*n)),
-        ParseError::UnexpectedEndOfFileMidSources(f, n) => (f.clone(), RefErr::EofSources(*n)),
-        ParseError::UnexpectedEndOfFileMidCommand(f, n) => (f.clone(), RefErr::EofCommand(*n)),
-        ParseError::BundleError(f, b) => (f.clone(), RefErr::Bundle(map_bundle_err(b))),
-    }
-}
-
-fn err_line(e: &RefErr) -> Option<usize>
-{
-    match e
-    {
-        RefErr::EmptyLine(n) | RefErr::ExtraColon(n) | RefErr::EofTargets(n) | RefErr::EofSources(n) | RefErr::EofCommand(n) => Some(*n),
-        RefErr::Bundle(_) => None,
-    }
-}
-
-fn compare_rules(got: &[Rule], want: &[RefRule]) -> Result<(), String>
-{
-    if got.len() != want.len()
-    {
-        return Err(format!("{} rules parsed, {} written", got.len(), want.len()));
-    }
-    for (g, w) in got.iter().zip(want.iter())
-    {
-        let gt: BTreeSet<String> = g.targets.iter().cloned().collect();
-        let gs: BTreeSet<String> = g.sources.iter().cloned().collect();
-        if gt != w.targets
-        {
-            return Err(format!("targets {:?}, written {:?}", g.targets, w.targets));
-        }
-        if gs != w.sources
-        {
-            return Err(format!("sources {:?}, written {:?}", g.sources, w.sources));
-        }
-        if gt.len() != g.targets.len() || gs.len() != g.sources.len()
-        {
-            return Err(format!("repeated path entries were not merged: targets {:?} sources {:?}", g.targets, g.sources));
-        }
-        if g.command != w.command
-        {
-            return Err(format!("command lines {:?}, written {:?}", g.command, w.command));
-        }
-    }
-    Ok(())
-}
-
-fn file_name(i: usize) -> String
-{
-    format!("file{}.rules", i)
-}
-
-/// Parses `texts` with ruler and with the reference and compares.
-fn check_texts(texts: &[String]) -> Result<(), String>
-{
-    let input: Vec<(String, String)> = texts.iter().enumerate().map(|(i, t)| (file_name(i), t.clone())).collect();
-    let got = match std::panic::catch_unwind(|| rule::parse_all(input))
-    {
-        Ok(r) => r,
-        Err(_) => return Err(format!("parser panicked on {:?}", texts)),
-    };
-    // reference: file by file, first error wins
-    let mut want_rules: Vec<RefRule> = vec![];
-    let mut want_err: Option<(usize, RefErr, usize)> = None;
-    let mut open = false;
-    for (i, t) in texts.iter().enumerate()
-    {
-        let r: RefOut = refparse::parse(t);
-        open |= r.open;
-        match r.result
-        {
-            Ok(rs) => want_rules.extend(rs),
-            Err(e) => { want_err = Some((i, e, r.lines)); break; }
-        }
-    }
-    // totality facts that hold for every text
-    if let Err(e) = &got
-    {
-        let (f, re) = map_err(e);
-        let fi = texts.iter().enumerate().position(|(i, _)| file_name(i) == f);
-        match fi
-        {
-            None => return Err(format!("error names file {:?} which was not given", f)),
-            Some(fi) =>
-            {
-                if let Some(n) = err_line(&re)
-                {
-                    let lines = texts[fi].split('\n').count();
-                    if n < 1 || n > lines + 1
-                    {
-                        return Err(format!("error line {} outside 1..={} of {}", n, lines + 1, f));
-                    }
-                }
-            }
-        }
-    }
-    if open
-    {
-        return Ok(());
-    }
-    match (&got, &want_err)
-    {
-        (Ok(rules), None) => compare_rules(rules, &want_rules).map_err(|m| format!("{} in {:?}", m, texts)),
-        (Ok(_), Some((fi, e, _))) => Err(format!("malformed text accepted; expected {:?} in {}: {:?}", e, file_name(*fi), texts)),
-        (Err(e), None) => Err(format!("well-formed text rejected with {:?}: {:?}", e, texts)),
-        (Err(e), Some((fi, we, _))) =>
-        {
-            let (f, re) = map_err(e);
-            if f != file_name(*fi) || re != *we
-            {
-                return Err(format!("rejected with {:?}, expected {:?} in {}: {:?}", e, we, file_name(*fi), texts));
-            }
-            Ok(())
-        }
-    }
+    data.split(|b| *b == 0xff).take(3).map(|p| String::from_utf8_lossy(p).to_string()).collect()
 }
 
 pub fn check(c: &Case) -> Result<(), String>
@@ -361,6 +252,7 @@ pub fn check(c: &Case) -> Result<(), String>
     match c
     {
         Case::Soup { files } => check_texts(files),
+        Case::FuzzBytes { hex } => check_texts(&fuzz_parts(&crate::verif::fuzzrun::unhex(hex))),
         Case::Rendered { rules, fmt, corruption } =>
         {
             let texts = render(rules, fmt);
@@ -460,9 +352,9 @@ fn prule() -> impl Strategy<Value = PRule>
 
 fn fmt() -> impl Strategy<Value = Fmt>
 {
-    (any::<bool>(), prop_oneof![1 => Just(0u64), 3 => any::<u64>()], any::<bool>(), any::<bool>(), 1u8..=3, 0u8..=2, 0u8..=2, any::<bool>(), 1u8..=3)
-        .prop_map(|(bundle, perm, repeat_entry, repeat_dir, blank_between, leading_blank, trailing_blank, final_newline, files)|
-            Fmt { bundle, perm, repeat_entry, repeat_dir, blank_between, leading_blank, trailing_blank, final_newline, files })
+    (any::<bool>(), prop_oneof![1 => Just(0u64), 3 => any::<u64>()], any::<bool>(), any::<bool>(), 1u8..=3, 0u8..=2, 0u8..=2, any::<bool>(), 1u8..=3, prop_oneof![2 => Just(false), 1 => Just(true)])
+        .prop_map(|(bundle, perm, repeat_entry, repeat_dir, blank_between, leading_blank, trailing_blank, final_newline, files, mix_flat)|
+            Fmt { bundle, perm, repeat_entry, repeat_dir, blank_between, leading_blank, trailing_blank, final_newline, files, mix_flat })
 }
 
 fn corruption() -> impl Strategy<Value = Corruption>
@@ -510,6 +402,7 @@ fn classify(c: &Case, stats: &mut Stats) -> bool
 {
     match c
     {
+        Case::FuzzBytes { .. } => { stats.class("fuzz-input"); true }
         Case::Soup { files } =>
         {
             stats.class("soup");
@@ -527,6 +420,7 @@ fn classify(c: &Case, stats: &mut Stats) -> bool
             if fmt.files > 1 { stats.class("multi-file"); }
             if fmt.repeat_entry { stats.class("repeated-entry"); }
             if fmt.repeat_dir && fmt.bundle { stats.class("repeated-directory"); }
+            if fmt.mix_flat && fmt.bundle { stats.class("flat-and-bundled-mixed"); }
             let deep = rules.iter().any(|r| r.targets.iter().chain(r.sources.iter()).any(|p| p.len() >= 3));
             if deep && fmt.bundle { stats.class("bundle-nesting>=2"); }
             if corrupted
@@ -558,6 +452,7 @@ pub fn test_case(c: &Case, stats: &mut Stats) -> Result<(), String>
     {
         Case::Rendered { rules, fmt, corruption } => { let mut t = render(rules, fmt); t[0] = corrupt(&t[0], corruption); json!({"texts": t, "corruption": format!("{:?}", corruption)}) }
         Case::Soup { files } => json!({"soup": files}),
+        Case::FuzzBytes { hex } => json!({"fuzz_input_hex": hex}),
     });
     check(c)
 }
@@ -576,6 +471,22 @@ pub fn run(ctx: &Ctx) -> Report
     rep.absorb(drive::drive_list(ctx, gold, |c, st| test_case(c, st)));
     let cases = ctx.tier.pick(40000u32, 800000);
     rep.absorb(drive::drive(ctx, 14, cases, strategy, test_case));
+    if ctx.tier == crate::verif::drive::Tier::Thorough
+    {
+        let o = crate::verif::fuzzrun::run_target(ctx, "parse", 2_000_000, 8, 512);
+        crate::verif::fuzzrun::record(&mut rep.stats, &o, "parse");
+        rep.stats.evaluations += o.runs;
+        for c in o.crashes.iter()
+        {
+            let case = Case::FuzzBytes { hex: crate::verif::fuzzrun::hex(c) };
+            match crate::verif::sched::catch_quiet(|| check(&case))
+            {
+                Ok(Ok(())) => { rep.stats.class("libfuzzer-crash-not-confirmed-in-process"); eprintln!("libFuzzer saved an input that the in-process oracle accepts; not reported"); }
+                Ok(Err(m)) => rep.failures.push(drive::Failure { reason: m, case: json!(case) }),
+                Err(m) => rep.failures.push(drive::Failure { reason: format!("panic in the code under test: {}", m), case: json!(case) }),
+            }
+        }
+    }
     rep
 }
 
